@@ -68,6 +68,14 @@ func vfRoutingMicroScripts(property string) []vfMicroScript {
 			// n2 while a task for it crosses the intra-proxy stream (the peer's hand-off meets the old sender's shutdown)
 			{Name: "two-proxies-target-breaks-and-reconnects", Scenario: twoProxies(base("micro-c08-P", 0)), Setup: []string{"openT:1", "openT:2", "openS:1", "wm:1"},
 				Steps: []string{"breakT:2", "emit:1", "emit:1", "openT:2"}},
+			// a watermark-only batch is broadcast while a target stream is shutting down (its hand-off channel is closed but
+			// still registered for a moment), then the shard reconnects
+			{Name: "watermark-broadcast-while-target-stream-shuts-down", Scenario: base("micro-c08-W", 0), Setup: []string{"openT:1", "openT:2", "openS:1", "wm:1"},
+				Steps: []string{"breakT:1", "wm:1", "openT:1"}},
+			// the receiver holds a pending watermark when target shard 1 registers late (it gets the replay), then that shard
+			// reconnects while its stream is alive: the newest incarnation is owed the replay again
+			{Name: "late-target-got-the-replay-then-reconnects", Scenario: base("micro-c08-L", 0), Setup: []string{"openT:2", "openS:1", "wm:1", "openT:1", "@baseline"},
+				Steps: []string{"reopenT:1", "breakOldT:1"}},
 			// a flapping reconnect: the old stream breaks, the shard reconnects and that stream breaks again at once
 			{Name: "target-flaps", Scenario: base("micro-c08-X", 0), Setup: []string{"openT:1", "openT:2", "openS:1", "wm:1"},
 				Steps: []string{"breakT:1", "openT:1", "breakT:1"}},
